@@ -413,10 +413,7 @@ func (c *Ctx) c13Email() {
 				if !Reaches(call.(ssa.Instruction), s.(ssa.Instruction)) {
 					continue
 				}
-				q := PathQuery{From: s.(ssa.Instruction), Cut: c.isStateOp("del", "session", authed), Goal: func(i ssa.Instruction) bool {
-					ret, ok := i.(*ssa.Return)
-					return ok && !c.isErrorExit(ret)
-				}}
+				q := PathQuery{From: s.(ssa.Instruction), Cut: c.isStateOp("del", "session", authed), GoalP: c.nonErrorReturn}
 				// only the save that follows this put on a straight path counts
 				if !InstrDominates(call.(ssa.Instruction), s.(ssa.Instruction)) {
 					continue
